@@ -561,6 +561,29 @@ def g_kdf_misc(env, spec):
             env.op("oaep_decode", n, g)
 
 
+def _alias_ops(P, k2p):
+    """Operations whose source and destination are the same native object."""
+    Q = P.copy()
+    if hasattr(P, "set"):
+        P.set(Q)            # ordinary assignment
+        P.set(P)            # self-assignment
+        P.set(P)
+    P += P
+    P == P
+    P.double()
+    P *= 3
+    return P.xy
+
+
+def _alias_x(P, other):
+    if hasattr(P, "set"):
+        P.set(other)
+        P.set(P)
+    P == P
+    P *= 5
+    return P.x
+
+
 def g_ec_ws(env, spec):
     from Crypto.PublicKey import ECC
     from Crypto.Signature import DSS
@@ -578,6 +601,8 @@ def g_ec_ws(env, spec):
             P = k.pointQ
             env.op("ecws:add:" + cv, 0, lambda: (P + P, P + (-P), P + P.point_at_infinity(), P.double(), P.copy() == P, P != G))
             env.op("ecws:inplace:" + cv, 0, lambda: [Q.__iadd__(P) for Q in [P.copy()]] and [Q.__imul__(7) for Q in [P.copy()]])
+            # aliasing of operands: the same object as source and destination
+            env.op("ecws:alias:" + cv, 0, lambda: _alias_ops(P.copy(), k2p=None))
             # off-curve / out of range construction must raise, not crash
             p = int(k._curve.p)
             for (x, y) in ((1, 1), (0, 0), (p, p), (p + 1, 5), (int(P.x), (int(P.y) + 1) % p), (1 << 600, 1 << 600)):
@@ -619,6 +644,7 @@ def g_ec_edmont(env, spec):
             for s in (0, 1, 2, 8, n - 1, n, n + 1, rng.getrandbits(rng.choice([8, 64, 253, 448, 600])), rng.getrandbits(1100)):
                 env.op("ed:mul:" + cv, s.bit_length(), lambda: P * s)
             env.op("ed:add:" + cv, 0, lambda: (P + P, P + (-P), P + P.point_at_infinity(), P.double(), P.copy() == P))
+            env.op("ed:alias:" + cv, 0, lambda: _alias_ops(P.copy(), k2p=None))
             p = int(k._curve.p)
             for (x, y) in ((0, 1), (0, p - 1), (1, 1), (p, 1), (0, p + 1), (1 << 600, 5)):
                 env.op("ed:construct:" + cv, 0, lambda: ECC.EccPoint(x, y, cv))
@@ -658,6 +684,7 @@ def g_ec_edmont(env, spec):
                 env.op("x:import:" + cv, len(blob), imp)
             for s in (0, 1, rng.getrandbits(255), rng.getrandbits(448), rng.getrandbits(1000)):
                 env.op("x:mul:" + cv, s.bit_length(), lambda: k.pointQ * s)
+            env.op("x:alias:" + cv, 0, lambda: _alias_x(k.pointQ.copy(), k2.pointQ))
         gc.collect()
 
 
